@@ -37,17 +37,24 @@ MANIFEST = {
 TOWERS = [("north", 50.0003, 10.0004, 5), ("south", 50.0001, 10.0008, 7.5), ("mast3", 50.0004, 10.0002, 6)]
 
 
-def make_config(nt, ns, use_cache, footprint=True):
+def make_config(nt, ns, use_cache, footprint=True, variant="plain", src_loc=None):
     from bldfm.config_parser import parse_config_dict
 
     ust = [0.30, 0.45, 0.30, 0.38]  # step 2 repeats step 0 (cache hit inside one series)
     wdir = [20, 250, 20, 135]  # whole numbers as integers, the way a YAML file delivers them
+    stamps = ["2024-07-01T%02d:00" % (10 + i) for i in range(ns)]
+    if variant == "steady":
+        # consecutive steps with identical conditions (a steady spell): step 1 repeats step 0 in EVERY field but the label
+        ust, wdir = [0.30, 0.30, 0.45, 0.45], [20, 20, 250, 250]
+    if variant == "dup-labels" and ns >= 2:
+        # local-time labels over the end of daylight-saving time: the last label repeats the first, the conditions differ
+        stamps[-1] = stamps[0]
     return parse_config_dict(
         {
             "domain": {"nx": 8, "ny": 6, "xmax": 80.0, "ymax": 60.0, "nz": 4, "modes": [8, 6], "ref_lat": 50.0, "ref_lon": 10.0, "halo": 20.0},
             "towers": [{"name": n, "lat": la, "lon": lo, "z_m": zm} for n, la, lo, zm in TOWERS[:nt]],
-            "met": {"ustar": ust[:ns], "wind_dir": wdir[:ns], "mol": -50, "wind_speed": 3, "timestamps": ["2024-07-01T%02d:00" % (10 + i) for i in range(ns)]},
-            "solver": {"footprint": footprint, "precision": "double"},
+            "met": {"ustar": ust[:ns], "wind_dir": wdir[:ns], "mol": -50, "wind_speed": 3, "timestamps": stamps},
+            "solver": dict({"footprint": footprint, "precision": "double"}, **({"src_loc": src_loc} if src_loc else {})),
             "parallel": {"use_cache": use_cache},
         }
     )
@@ -99,7 +106,13 @@ def case_pool(case):
 
     nt, ns = case["shape"]
     strat, W = case["strategy"], case["W"]
-    cfg = make_config(nt, ns, case["cache"], case.get("footprint", True))
+    if case.get("earlier_run_other_source"):
+        # an EARLIER run in the same working directory (same domain, towers, met; source somewhere else) has left its
+        # files behind (only matters if something is cached on disk)
+        cfg0 = make_config(nt, ns, case["cache"], case.get("footprint", True), case.get("variant", "plain"), src_loc=[20.0, 15.0])
+        bi.run_bldfm_multitower(cfg0)
+        bi.run_bldfm_parallel(cfg0, max_workers=2, parallel_over="towers")
+    cfg = make_config(nt, ns, case["cache"], case.get("footprint", True), case.get("variant", "plain"), src_loc=[55.0, 40.0] if case.get("earlier_run_other_source") else None)
     orig_single, orig_ts = bi.run_bldfm_single, bi.run_bldfm_timeseries
     v = []
     # (1) reference single runs: fresh process, one thread, no cache
@@ -229,7 +242,15 @@ def cells(tier):
             continue  # W=3 and W=5 already cover "more workers than tasks" for these
         if ntasks >= 6 and W >= 4 and (pt != 1 or cache):
             continue  # 384-600 orders per cell: replayed once (one thread setting, cache off)
-        yield {"shape": list(shape), "strategy": strat, "W": W, "parent_threads": pt, "cache": cache, "ntasks": ntasks, "npools": npools}
+        variant = ("plain", "dup-labels", "steady")[(W + nt + ns + (1 if cache else 0)) % 3]
+        yield {"shape": list(shape), "strategy": strat, "W": W, "parent_threads": pt, "cache": cache, "ntasks": ntasks, "npools": npools, "variant": variant}
+    # dispersion mode with the cache switched on and an earlier run with another source in the same directory
+    for shape, strat, W in itertools.product([(2, 2), (1, 3)] if tier == "quick" else [(2, 2), (1, 3), (2, 3)], ("towers", "time", "both"), (1, 2, 3)):
+        nt, ns = shape
+        ntasks = {"towers": nt, "time": ns, "both": nt * ns}[strat]
+        if ntasks >= 6 and W >= 3:
+            continue
+        yield {"shape": list(shape), "strategy": strat, "W": W, "parent_threads": 1, "cache": True, "footprint": False, "ntasks": ntasks, "npools": nt if strat == "time" else 1, "earlier_run_other_source": True, "variant": "plain"}
     if tier != "quick":
         for shape, strat, W in itertools.product([(2, 2), (1, 3)], ("towers", "time", "both"), (1, 2, 3)):
             nt, ns = shape
